@@ -629,6 +629,14 @@ class StmtMixin:
         for nme in sorted(names):
             if nme in env.locals and env.locals[nme] is not None:
                 v = env.locals[nme]
+                dk = fr.local_kind(nme)
+                if dk is not None and isinstance(v, (VNone, VOpt)) and dk.startswith("opt["):
+                    # a variable that is None before the loop and rebound inside it: its declared kind
+                    # says what it may hold at the loop head (havocking the concrete None would keep it None)
+                    env.locals[nme] = self.fresh_value(dk, nme)
+                    continue
+                if isinstance(v, VNone):
+                    raise Unsupported(f"loop #{ordinal} rebinds {nme!r}, which is None before the loop: declare its kind in `locals`")
                 if isinstance(v, VRef):
                     cell = self.path.heap[v.addr]
                     if cell.val is not None:
